@@ -36,18 +36,23 @@ namespace awkward {
       .append("\n")
       .append(content_.get()->vm_output());
 
+    // the two variables of this node: their names must differ from those of every
+    // other option-type node of the same Form
+    std::string var_null = std::string(vm_func_name_).append("-null");
+    std::string var_index = std::string(vm_func_name_).append("-count");
+
     vm_func_.append(content_.get()->vm_func())
       .append(": ").append(vm_func_name()).append("\n")
       .append("dup ").append(std::to_string(static_cast<utype>(state::null)))
       .append(" = if").append("\n")
       .append("drop\n")
-      .append("variable null    -1 null !").append("\n")
-      .append("null @ ")
+      .append("variable ").append(var_null).append("    -1 ").append(var_null).append(" !").append("\n")
+      .append(var_null).append(" @ ")
       .append(vm_output_data_).append(" <- stack").append("\n")
       .append("exit\n")
       .append("else\n")
-      .append("variable index    1 index +!").append("\n")
-      .append("index @ 1- ")
+      .append("variable ").append(var_index).append("    1 ").append(var_index).append(" +!").append("\n")
+      .append(var_index).append(" @ 1- ")
       .append(vm_output_data_).append(" <- stack").append("\n")
       .append(content_.get()->vm_func_name()).append("\n")
       .append("then\n")
